@@ -40,6 +40,14 @@ CLAIMED = {
             "selectors) and compared with the reference model after each step.",
             "Trusted: CrossHair + z3; snapshot serializer; deserializer stub; harness clock; endpoints number packets 1,2,3...",
             "DESIGN.md §1 C05"),
+    "C06": ("CrossHair/z3 symbolic execution of the real SOCKS5 UDP framing (symbolic port/payload/header bytes) and of the real "
+            "UDP association -> LLUDP proxy packet path over all 2-datagram schedules (symbolic source and kind) with the "
+            "real byte codec, plus a run-twice non-interference oracle on session/circuit state",
+            "Bounded symbolic model checking: framing for all ports/payloads within bounds; routing for every schedule of the "
+            "stated length over 4 sources x 6 datagram kinds.",
+            "Trusted: CrossHair + z3; message content concrete (C01 covers the codec); exceptions escaping datagram_received "
+            "count as discard when nothing was sent and state is unchanged.",
+            "DESIGN.md §1 C06"),
     "C07": ("CrossHair/z3 symbolic execution of the real handle_proxied_packet / AddonManager hook dispatch / ProxiedCircuit "
             "ownership guards with a symbolic fault schedule (behaviour per addon hook and subscriber, direction, reliable bit) "
             "and all operation sequences up to length 4, compared with a reference ownership model",
